@@ -42,6 +42,14 @@ def _laws(nj, law, a, b, al, be, dt, per, xi):
             err = max(float(np.max(np.abs(Us[:, k:] - U0))), float(np.max(np.abs(Vs[:, k:] - V0))), float(np.max(np.abs(Us[:, :k]))), float(np.max(np.abs(Vs[:, :k]))))
             if err > 1e-9 * scale(U0, V0):
                 return 'prepending %d zeros does not delay the response by %d samples (max difference %.3g)' % (k, k, err)
+    elif law == 'three-period-rotations':
+        for base in ([0.5, 1.3, 0.2], [1.3, 0.2, 0.5], [0.8, 0.2, 2.1, 0.35, 1.3, 0.5], [float(per[0]), float(per[1]), 0.37]):
+            base = np.array(base)
+            U3, V3, A3 = nj(a, dt, base, xi)
+            for r, Tr in enumerate(base):
+                U1, V1, A1 = nj(a, dt, np.array([Tr]), xi)
+                if max(float(np.max(np.abs(U3[r] - U1[0]))), float(np.max(np.abs(V3[r] - V1[0]))), float(np.max(np.abs(A3[r] - A1[0])))) > 1e-9 * scale(U1, V1, A1):
+                    return 'periods=%s: row %d is not the response of period %g' % (base.tolist(), r, Tr)
     else:
         Ur, Vr, Ar = nj(a, dt, per[::-1].copy(), xi)
         if max(float(np.max(np.abs(Ur[::-1] - Ua))), float(np.max(np.abs(Vr[::-1] - Va))), float(np.max(np.abs(Ar[::-1] - Aa)))) > 1e-9 * scale(Ua, Va, Aa):
